@@ -238,13 +238,13 @@ Proof.
     { rewrite cids_cons, app_assoc. apply removelast_snoc. }
     rewrite Etop, Erl.
     set (j := next_id s). set (d := scope_dict s (cs_id c0)).
-    set (s2 := snd (new_scope s KNormal d)).
+    set (s2 := snd (new_scope s KClone d)).
     set (stk' := (stack_of L ++ cids C0) ++ [j]).
-    destruct (new_scope_fields s d) as (_ & Enx & Em & Ed & Efd & Eln & _). fold s2 in Enx, Em, Ed, Efd, Eln.
+    destruct (new_scope_fields_k s KClone d) as (_ & Enx & Em & Ed & Efd & Eln & _). fold s2 in Enx, Em, Ed, Efd, Eln.
     destruct (dict_has_rootclosed_copy s (cs_id c0) HI) as (P1 & P2 & P3). fold d in P1, P2, P3.
-    assert (HI2 : SInv s2) by (apply SInv_new; auto).
+    assert (HI2 : SInv s2) by (apply SInv_new_k; auto; discriminate).
     assert (Hsd : forall i, scope_dict s2 i = if Nat.eqb i j then d else scope_dict s i)
-      by (intro i; apply scope_dict_new; apply (sv_fresh s HI)).
+      by (intro i; apply scope_dict_new_k; apply (sv_fresh s HI)).
     assert (Hhas : forall i x, has s2 i x = if Nat.eqb i j then has s (cs_id c0) x else has s i x).
     { intros i x. unfold has. rewrite Hsd. destruct (Nat.eqb i j); auto. }
     set (exp' := upd exp j (cs_acc c0)).
